@@ -423,7 +423,12 @@ def specStr (tgt : Ty) (w : String) (r : Res) : Bool :=
         | some y => valOfTy tgt r.val && sameFloat (roundRat f s n d) y && y.isFin
         | none => false)) &&
       (!decide (n ≤ f.maxFinite * d) || r.err == .ok)
-    | none => true        -- "inf", "nan", malformed, absurd exponents: not numeric strings
+    | none =>
+      -- "inf"/"nan" spellings convert to ±Inf/NaN; absurd exponents and the unmodelled hexadecimal / `_` forms are
+      -- left open; anything else is not a number at all ("abc", "", "1 2"): it must not come back as a finite value
+      -- with a nil error (a swallowed parse error would invent a number)
+      (decimalSyntax w).isSome || w.toList.any (fun c => c == 'x' || c == 'X' || c == 'p' || c == 'P' || c == '_') ||
+      r.err != .ok || (match floatOf r.val with | some y => !y.isFin | none => false)
   | _, _, _ => true       -- ToBool of a string is outside the property
 
 /-- The whole property for one conversion. -/
